@@ -48,17 +48,17 @@ pub fn c01_l1_kem_agreement() {
 const PT: usize = 17;
 const AD: usize = 3;
 
-//@h name=c01_l3_step_in_place tier=quick mode=func timeout=1500 desc="inductive step of the message sequence, in-place detached API: from ANY pair of sender/receiver states with the same key, base nonce and counter, seal_in_place_detached then open_in_place_detached returns exactly the plaintext in a buffer of unchanged length with a separate 16-byte tag, and both sides end in the same state (counter +1, or both latched at 2^64-1)" bounds="key, base nonce, seq (all 2^64) symbolic; plaintext 0..=17 B (straddles the 16-byte block), aad 0..=3 B; ideal AEAD; unwind 40"
+//@h name=c01_l3_step_in_place tier=quick mode=func timeout=1500 desc="inductive step of the message sequence, in-place detached API: from ANY pair of sender/receiver states with the same key, base nonce and counter, seal_in_place_detached then open_in_place_detached returns exactly the plaintext in a buffer of unchanged length with a separate 16-byte tag, and both sides end in the same state (counter +1, or both latched at 2^64-1)" bounds="key, base nonce, seq (all 2^64) symbolic; plaintext 0..=17 B (straddles the 16-byte block), aad 0..=3 B; ideal AEAD; unwind 20"
 #[kani::proof]
-#[kani::unwind(40)]
+#[kani::unwind(20)]
 #[kani::stub(zeroize::optimization_barrier, noop_barrier)]
 pub fn c01_l3_step_in_place() {
     let key: [u8; 16] = kani::any();
     let base: [u8; 12] = kani::any();
     let exp: [u8; 8] = kani::any();
     let seq: u64 = kani::any();
-    let mut s = ctx_s_from_parts::<AI, K, M>(&key, &base, &exp, seq, false);
-    let mut r = ctx_r_from_parts::<AI, K, M>(&key, &base, &exp, seq, false);
+    let mut s = ctx_s_from_parts::<IdealAeadBig, K, M>(&key, &base, &exp, seq, false);
+    let mut r = ctx_r_from_parts::<IdealAeadBig, K, M>(&key, &base, &exp, seq, false);
     let pt: [u8; PT] = kani::any();
     let len = any_len(PT);
     let aad: [u8; AD] = kani::any();
@@ -89,9 +89,9 @@ pub fn c01_l3_step_in_place() {
 /// the same inductive step through the allocating seal()/open(); plaintext length concrete per
 /// harness (symbolic-size Vec allocations are out of reach), contents symbolic
 macro_rules! step_alloc_harness {
-    ($name:ident, $len:expr) => {
+    ($name:ident, $len:expr, $aead:ty) => {
         #[kani::proof]
-        #[kani::unwind(40)]
+        #[kani::unwind(20)]
         #[kani::stub(zeroize::optimization_barrier, noop_barrier)]
         pub fn $name() {
             const LEN: usize = $len;
@@ -99,8 +99,8 @@ macro_rules! step_alloc_harness {
             let base: [u8; 12] = kani::any();
             let exp: [u8; 8] = kani::any();
             let seq: u64 = kani::any();
-            let mut s = ctx_s_from_parts::<AI, K, M>(&key, &base, &exp, seq, false);
-            let mut r = ctx_r_from_parts::<AI, K, M>(&key, &base, &exp, seq, false);
+            let mut s = ctx_s_from_parts::<$aead, K, M>(&key, &base, &exp, seq, false);
+            let mut r = ctx_r_from_parts::<$aead, K, M>(&key, &base, &exp, seq, false);
             let pt: [u8; LEN] = kani::any();
             let aad: [u8; 2] = kani::any();
             let alen = any_len(2);
@@ -132,16 +132,16 @@ macro_rules! step_alloc_harness {
         }
     };
 }
-//@h name=c01_l3_step_alloc_len0 tier=quick mode=func timeout=1800 desc="inductive step through the allocating seal()/open() for the EMPTY plaintext: ciphertext is exactly the 16-byte tag and opens to the empty plaintext; both sides advance alike" bounds="key, base nonce, seq (all 2^64) symbolic; plaintext length 0; aad 0..=2 B; ideal AEAD; unwind 34"
-step_alloc_harness!(c01_l3_step_alloc_len0, 0);
+//@h name=c01_l3_step_alloc_len0 tier=quick mode=func timeout=1800 desc="inductive step through the allocating seal()/open() for the EMPTY plaintext: ciphertext is exactly the 16-byte tag and opens to the empty plaintext; both sides advance alike" bounds="key, base nonce, seq (all 2^64) symbolic; plaintext length 0; aad 0..=2 B; ideal AEAD; unwind 20"
+step_alloc_harness!(c01_l3_step_alloc_len0, 0, IdealAead);
 //@h name=c01_l3_step_alloc_len3 tier=quick mode=func timeout=1800 desc="same for a 3-byte plaintext: |ct| = |pt| + 16, opens to exactly the plaintext" bounds="plaintext length 3 (contents symbolic); otherwise as len0"
-step_alloc_harness!(c01_l3_step_alloc_len3, 3);
+step_alloc_harness!(c01_l3_step_alloc_len3, 3, IdealAead);
 //@h name=c01_l3_step_alloc_len17 tier=thorough mode=func timeout=2400 desc="same for a 17-byte plaintext (straddles the 16-byte block)" bounds="plaintext length 17 (contents symbolic)"
-step_alloc_harness!(c01_l3_step_alloc_len17, 17);
+step_alloc_harness!(c01_l3_step_alloc_len17, 17, IdealAeadBig);
 
-//@h name=c01_l2_setup_agreement tier=quick mode=func timeout=1800 desc="schedule agreement, end to end through the public API in AuthPsk mode (the mode that exercises every input): setup_sender with a scripted RNG, then setup_receiver with the matching private key, sender public key, PSK bundle and info: both sides hold the same key (seal on one opens on the other: first message round-trips), same base nonce, same exporter secret" bounds="all RNG outputs, skR, skS; info 0..=2 B, psk/psk_id 1..=2 B; plaintext 0..=2 B; model suite with the ideal AEAD; unwind 34"
+//@h name=c01_l2_setup_agreement tier=quick mode=func timeout=1800 desc="schedule agreement, end to end through the public API in AuthPsk mode (the mode that exercises every input): setup_sender with a scripted RNG, then setup_receiver with the matching private key, sender public key, PSK bundle and info: both sides hold the same key (seal on one opens on the other: first message round-trips), same base nonce, same exporter secret" bounds="all RNG outputs, skR, skS; info 0..=2 B, psk/psk_id 1..=2 B; plaintext 0..=2 B; model suite with the ideal AEAD; unwind 20"
 #[kani::proof]
-#[kani::unwind(34)]
+#[kani::unwind(20)]
 #[kani::stub(zeroize::optimization_barrier, noop_barrier)]
 pub fn c01_l2_setup_agreement() {
     let bytes: [u8; RNG_CAP] = kani::any();
